@@ -52,7 +52,15 @@ def _strategy(draw):
     if draw(st.booleans()):
         order = draw(st.permutations(list(range(len(assets)))))
         assets = [assets[i] for i in order]
-    return {"grid": g, "prices": cx.prices, "assets": assets, "ints": draw(st.integers(0, 2)) == 0}
+    ints = draw(st.integers(0, 2)) == 0
+    if ints:
+        # whole-number capacities and prices, written as integers (a documented way to write an order book)
+        for a in assets:
+            if a["type"] == "orderbook":
+                for o in a["orders"]:
+                    o[2] = float(round(o[2])) if abs(o[2]) >= 0.5 else (0.0 if o[2] == 0 else (1.0 if o[2] > 0 else -1.0))
+                    o[3] = float(round(o[3]))
+    return {"grid": g, "prices": cx.prices, "assets": assets, "ints": ints}
 
 
 def strategy(tier):
